@@ -389,7 +389,7 @@ func c07case(c GCase, a *run.Acc) {
 func c07plan(tier string, seed int64) []run.Job {
 	var jobs []run.Job
 	jobs = append(jobs, run.Job{Family: "corpus"})
-	nr, per := 16, 60
+	nr, per := 16, 150
 	maxNodes := 5
 	if tier == "thorough" {
 		nr, per, maxNodes = 64, 300, 6
